@@ -577,10 +577,43 @@ def ir_path_case(t, v, idx):
     return out
 
 
+def instance_isolation():
+    """`codecs` is documented as a per-instance table that may be extended or
+    overridden: doing so on one Serialization object must not change any
+    other (nor the library-wide AuxData.serializer)."""
+    br = bridge()
+    ser_mod = __import__("gtirb.serialization", fromlist=["x"])
+    out = []
+    glob = br.ser
+    before = dict(glob.codecs)
+    p = ser_mod.Serialization()
+    marker = type("MarkerCodec", (ser_mod.Codec,), {})
+    shared = p.codecs is glob.codecs
+    p.codecs["string"] = marker
+    p.codecs["verif_custom"] = marker
+    p.codecs.pop("Offset", None)
+    fresh = ser_mod.Serialization()
+    leaked = [who for who, c in (("AuxData.serializer", glob.codecs),
+                                  ("a fresh Serialization()", fresh.codecs))
+              if c.get("string") is marker or "verif_custom" in c
+              or "Offset" not in c]
+    if leaked or shared:
+        out.append(("C07", "codec-table-shared-between-instances",
+                    "overriding codecs on one Serialization changed %s" % leaked))
+        out.append(("C08", "codec-table-shared-between-instances",
+                    "overriding codecs on one Serialization changed %s" % leaked))
+        # undo, so that the remaining cases judge the codecs themselves
+        glob.codecs.clear()
+        glob.codecs.update(before)
+    return out
+
+
 def work(task):
     label, types, k = task
     n = 0
     bad = []
+    for prop, kind, detail in instance_isolation():
+        bad.append((prop, kind, "string", "<codec table>", detail))
     ir_path = label.startswith("depth<=1")
     hangs = 0
     for ti, t in enumerate(types):
